@@ -41,6 +41,9 @@ CLAIMED = {
  "C09": ("pure", "Purity.tla memo-function specification model-checked (honest and dishonest implementations); interleaved begin/end logs of concurrent real calls (1/2/8/32 goroutines under the race detector, on the same memory and on decoded / shared / deep-copied / JSON copies) validated by TLC (PurityTrace.tla); reflection probes of the copy operations",
          "Every recorded call leaves its inputs' deep digest unchanged and returns the result recorded for the same content key, across goroutine counts and copies; the per-transaction path gives the block's verdict; Copy/DeepCopy results share no slice memory with their originals. Found and fixed the shallow element Copy methods.",
          "Trusted: the Go race detector for race detection (the model only judges the logs), the harness's reflection digest, TLC. Pointer/interface sharing of DeepCopy is reported as information.", "DESIGN.md 4.10, 5/C09"),
+ "C10": ("wire", "Malformed.tla (annotated wire interpreter, asserted equal to Wire!Enc): TLC enumerates structural corruptions of valid encodings of every wire shape (cut points, inflated/deflated length prefixes, counts, bools, tags, currencies, policy depth/arity, multiproof hints, outline kinds) and of JSON/text forms; Extremes.tla enumerates structure-aware mutations of valid blocks (currency extremes alone, in pairs, as pre-check complements and uint64 wrap pairs, proof lengths, covered-field patterns, id confusion, duplicated/missing parents, decodable nil values, life-cycle extremes); every case is executed on the real decoders (worker processes) and on ValidateHeader/Orphan/Transaction/V2Transaction/Block, ApplyBlock and RevertBlock over TLC-generated ledger behaviours",
+         "Every decode/unmarshal case returns a value or an error without panic, without outliving a 120 s confirmation deadline and without holding more than 64 x input + 1 MiB of heap (peak, measured alone in a fresh process); every mutated block either fails validation with an error or is applied and reverted without panic. TLC announces the case count per shape and the harness must derive the same number. Found F3 F4 F11 F12 F19-F23 F26 (fixed) and F24 (known).",
+         "Trusted: wirebridge registry of wire types, the Go runtime's MemStats/heap sampling for the peak-memory verdict, wall-clock deadlines (5 s suspect, 120 s verdict) for non-termination, TLC. Unstructured random bytes are not generated. Quadratic-time but terminating inputs are listed as observations (slow_cases), not verdicts.", "DESIGN.md 4.8, 5/C10, 11.3"),
  "C11": ("wire", "Wire.tla schema interpreter: TLC validates bytes = Enc(schema, value) for recorded real encodings of all 177 wire types (direction B) and enumerates small shapes whose bytes the real decoders must decode and re-encode identically (direction A); round trip, canonicity, single-field influence and truncation decided on the real code",
          "The byte layout of every registered wire type equals the independently written schema; decode(encode(v)) = v up to the explicit normalisation table; every transmitted leaf field changes the bytes; every proper prefix fails to decode; bool bytes other than 0/1 are rejected.",
          "Trusted: wirebridge reflection walker (schema and Go struct walked in lock-step), TLC. Unexported rhp2/rhp3 response wrappers not covered.", "DESIGN.md 4.8, 5/C11"),
